@@ -266,6 +266,12 @@ Theorem C01_hybrid_switching :
 Proof. exact (conj mercurius_split_is_exact (conj trace_split_is_exact hybrid)). Qed.
 Print Assumptions C01_hybrid_switching.
 
+(* WHFast, safe_mode 0, coordinates recomputed three times while unsynchronized (word traced from the library): the word with a
+   synchronize at every occurrence equals five synchronised steps (all words up to length 4) *)
+Theorem C01_whfast_recalculate_unsynchronized : whfast_recalc_ok = true.
+Proof. exact whfast_recalc. Qed.
+Print Assumptions C01_whfast_recalculate_unsynchronized.
+
 (* Non-vacuity: the decision procedure rejects wrong claims (leapfrog of order 4; SABA2 of grading (6,2)),
    and the lists quantified over are the concrete non-empty lists of types. *)
 Example C01_checker_rejects_wrong_orders :
